@@ -8,7 +8,8 @@ On break: harness `oracle` evaluates the property's clauses directly on the real
 """
 import os
 
-THEOREMS = ["IstioModel.C04.Theorems", "IstioModel.C04.ProtocolTheorems", "IstioModel.C04.DeltaTraceTheorems"]
+THEOREMS = ["IstioModel.C04.Theorems", "IstioModel.C04.ProtocolTheorems", "IstioModel.C04.DeltaTraceTheorems",
+            "IstioModel.C04.ProcessTheorems"]
 
 
 def oracle(ctx, stream, case_lines, rep):
@@ -62,8 +63,12 @@ def run(ctx):
     ctx.diff_stream("warm", ctx.n(600, 12000), oracle=oracle)
     # closed loop: real ShouldRespond/Send composed with the conformant client of Protocol.lean
     ctx.diff_stream("loop", ctx.n(800, 20000), oracle=oracle)
+    # the code that ANSWERS: real processRequest / pushXds / pushConnection and processDeltaRequest / pushDeltaXds /
+    # forceEDSPush / pushConnectionDelta on a recording stream with recording generators
+    ctx.diff_stream("proc", ctx.n(1200, 30000), oracle=oracle)
+    ctx.diff_stream("dproc", ctx.n(1200, 30000), oracle=oracle)
     # the oracle also runs on every generated case (second line, independent of the model)
-    for stream in ("sotw", "delta", "warm", "loop"):
+    for stream in ("sotw", "delta", "warm", "loop", "proc", "dproc"):
         g = os.path.join(ctx.work, "%s.gen.ops" % stream)
         if os.path.exists(g):
             out = g + ".verdict"
